@@ -1040,11 +1040,25 @@ func (e *Evaluator) evalStatement(stmt Statement) error {
 	return nil
 }
 
+// evalSpecialRule runs the body of a BEGIN, END, BEGINFILE or ENDFILE rule.
+// There is no current item there, so `next` just ends that rule.
+func (e *Evaluator) evalSpecialRule(rule *Rule) error {
+	err := e.evalStatement(rule.Body)
+	if err == errNext {
+		return nil
+	}
+	return err
+}
+
 func (e *Evaluator) evalRules(rules []*Rule) error {
 	for _, rule := range rules {
 		match := true
 		if rule.Pattern != nil {
 			cell, err := e.evalExpr(rule.Pattern)
+			if err == errNext {
+				// next executed by a function called from the pattern
+				return nil
+			}
 			if err != nil {
 				return err
 			}
@@ -1147,7 +1161,7 @@ func EvalProgram(progSrc string, files []InputFile, rootSelectors []string, stdo
 	// begin rules
 	for _, rule := range ev.beginRules {
 		ev.ruleRoot = NewCell(NewValue(nil))
-		if err := ev.evalStatement(rule.Body); err != nil {
+		if err := ev.evalSpecialRule(rule); err != nil {
 			if err == errExit {
 				return &ev, nil
 			}
@@ -1191,7 +1205,7 @@ func EvalProgram(progSrc string, files []InputFile, rootSelectors []string, stdo
 				// run the begin file rules
 				for _, rule := range ev.beginFileRules {
 					ev.ruleRoot = rootCell
-					if err := ev.evalStatement(rule.Body); err != nil {
+					if err := ev.evalSpecialRule(rule); err != nil {
 						if err == errExit {
 							return &ev, nil
 						}
@@ -1211,7 +1225,7 @@ func EvalProgram(progSrc string, files []InputFile, rootSelectors []string, stdo
 				// run the end file rules
 				for _, rule := range ev.endFileRules {
 					ev.ruleRoot = NewCell(rootVal)
-					if err := ev.evalStatement(rule.Body); err != nil {
+					if err := ev.evalSpecialRule(rule); err != nil {
 						if err == errExit {
 							return &ev, nil
 						}
@@ -1225,7 +1239,7 @@ func EvalProgram(progSrc string, files []InputFile, rootSelectors []string, stdo
 	// end rules
 	for _, rule := range ev.endRules {
 		ev.ruleRoot = NewCell(NewValue(nil))
-		if err := ev.evalStatement(rule.Body); err != nil {
+		if err := ev.evalSpecialRule(rule); err != nil {
 			if err == errExit {
 				return &ev, nil
 			}
